@@ -366,6 +366,77 @@ func c10(c *Ctx) {
 		c.undecided(r, "floor", fmt.Sprintf("%d writers of a ts file found (fullDump, TBtree.writeTsFile confirmed by hand)", nts))
 	}
 
+	// ---- C10.4 a history walk is bounded by versions, not by records ------------------------------------------------
+	// hCount counts the versions of a key kept in the history log; one record holds all versions accumulated between two
+	// flushes and ends with the offset of the previous record (0 in the oldest one, which is also a valid offset: the
+	// first record of the log, usually of another key). A walk must therefore stop when hCount *versions* were seen:
+	// the counter compared with hCount (or with the number of versions wanted) advances per decoded version.
+	r = "C10.4/history-walk-bounded-by-versions"
+	nw2 := 0
+	for _, name := range []string{"embedded/tbtree.(*leafValue).lastUpdateBetween", "embedded/tbtree.(*leafValue).history"} {
+		f := c.mustFn(r, name)
+		if f == nil {
+			continue
+		}
+		readers := sites(f, callTo("embedded/appendable.NewReaderFrom"))
+		if len(readers) == 0 {
+			c.undecided(r, name+":reader", "no history-log reader found")
+			continue
+		}
+		perValue := func(b *ssa.BasicBlock) bool { // b executes once per decoded version: dominated by the inner loop's true edge
+			for _, blk := range f.Blocks {
+				if len(blk.Instrs) == 0 {
+					continue
+				}
+				ifi, ok := blk.Instrs[len(blk.Instrs)-1].(*ssa.If)
+				if !ok {
+					continue
+				}
+				a, _ := normCond(ifi.Cond)
+				if !strings.Contains(a, "ReadUint32") {
+					continue
+				}
+				if edgeDominates(blk, 0, b) {
+					return true
+				}
+			}
+			return false
+		}
+		for i, rd := range readers {
+			nw2++
+			// the conditions that decide whether another record is opened: Ifs dominating the reader inside the loop
+			okw := false
+			var seen []string
+			for _, blk := range f.Blocks {
+				if len(blk.Instrs) == 0 || !blk.Dominates(rd.Block()) {
+					continue
+				}
+				ifi, ok := blk.Instrs[len(blk.Instrs)-1].(*ssa.If)
+				if !ok || !reaches(rd.Block(), blk, nil) { // only loop conditions (the reader can come back to them)
+					continue
+				}
+				bo, ok := ifi.Cond.(*ssa.BinOp)
+				if !ok {
+					continue
+				}
+				seen = append(seen, desc(bo))
+				for _, side := range []ssa.Value{bo.X, bo.Y} {
+					if dependsOn(side, func(v ssa.Value) bool {
+						add, ok := v.(*ssa.BinOp)
+						return ok && add.Op == token.ADD && perValue(add.Block())
+					}) {
+						okw = true
+					}
+				}
+			}
+			c.check(okw, r, fmt.Sprintf("%s:next-record-only-while-versions-remain#%d", fnName(f), i), c.pos(rd.Pos()), "the loop that opens the next record is controlled by a per-version counter",
+				"the next history record is opened under "+strings.Join(seen, " / ")+", none of which advances per decoded version: after the last version of the key the walk follows the previous-record offset of the oldest record into another key's history")
+		}
+	}
+	if nw2 < 2 {
+		c.undecided(r, "floor", "history walkers not found")
+	}
+
 	r = "C10.3/snapshots-pin-roots"
 	if f := c.mustFn(r, tbT+"SnapshotMustIncludeTsWithRenewalPeriod"); f != nil {
 		reg := func(in ssa.Instruction) bool {
